@@ -58,7 +58,7 @@ func (s sortableByProperty) Less(i, j int) bool {
 		if rt.Kind() == reflect.Map && rt.Type().Key().Kind() == reflect.String {
 			elem := rt.MapIndex(reflect.ValueOf(s.key))
 			if elem.IsValid() {
-				return elem.Interface()
+				return ToLiquid(elem.Interface())
 			}
 		}
 		return nil
